@@ -400,6 +400,19 @@ func (envs *Manager) CreateEnvironment(workflowPath string, userVars map[string]
 		WithField("level", infologger.IL_Devel).
 		Debug("envman write lock")
 	envs.mu.Lock()
+	// The list of active detectors we compared with was taken before the workflow was loaded: another environment
+	// may have been registered since then. The exclusion is decided again here, atomically with the registration.
+	for _, other := range envs.m {
+		if other.workflow == nil {
+			continue
+		}
+		for det := range other.GetActiveDetectors() {
+			if _, contains := neededDetectors[det]; contains {
+				envs.mu.Unlock()
+				return env.id, fmt.Errorf("detector %s is already in use", det.String())
+			}
+		}
+	}
 	envs.m[env.id] = env
 	envs.pendingStateChangeCh[env.id] = env.stateChangedCh
 	envs.mu.Unlock()
